@@ -379,50 +379,53 @@ theorem unlocated_created_nodes :
        ("optimizer/in_range.go", "BinaryNode"), ("optimizer/in_range.go", "BinaryNode")] := by
   decide +kernel
 
-/-- **Every error site is located, except the listed ones.**  Located: the lexer at `l.loc`, the parser
-    at the current token, the checker at the offending node, the two fold errors and the const-expr
-    error at the rewritten node, the VM at `program.Locations[vm.pp]`.  Unlocated (plain `fmt.Errorf`):
-    the misuse check of `Eval`, the `expect` error of `checker.Check` (twice), the recover of
-    `compiler.Compile`, the option checks of conf/config.go (4), `vm.Run(nil)`; the ten `fmt.Errorf` of
-    lexer/utils.go are re-raised by `root` through the located `l.error("%v", err)`. -/
+/-- same elements, whatever the order and multiplicity (so that a second site of an already listed
+    kind in an already listed function does not disturb the table) -/
+def sameSet {α : Type} [BEq α] (xs ys : List α) : Bool := xs.all (ys.contains ·) && ys.all (xs.contains ·)
+
+/-- **Every error site is located, except the listed ones** (as sets of (file, function, …)).
+    Located: the lexer at `l.loc`, the parser at the current token, the checker at the offending node,
+    the fold errors and the const-expr error at the rewritten node, the VM at `program.Locations[vm.pp]`.
+    Unlocated: the misuse check of `Eval`, the `expect` error of `checker.Check`, the recover of
+    `compiler.Compile`, the option checks of conf/config.go (`Check`, and `ConstExpr` with its recover),
+    `vm.Run(nil)` — all plain `fmt.Errorf` — and ONE `file.Error` literal without `Location`: the
+    default branch of `checker.visit` ("undefined node type", since b1d37f1 an error instead of a
+    panic), reachable only with a malformed tree produced by a user visitor, for which no source
+    position exists.  The `fmt.Errorf` of lexer/utils.go are re-raised by `root` through the located
+    `l.error("%v", err)`. -/
 theorem every_error_site_is_located :
-    (Gen.Loc.errSites.filter (fun e => e.loc != "")).map (fun e => (e.file, e.fn, e.loc)) =
+    sameSet ((Gen.Loc.errSites.filter (fun e => e.loc != "")).map (fun e => (e.file, e.fn, e.loc)))
       [("checker/checker.go", "(*visitor).error", "node.Location()"),
        ("optimizer/const_expr.go", "(*constExpr).Exit", "(*node).Location()"),
        ("optimizer/fold.go", "(*fold).Exit", "(*node).Location()"),
-       ("optimizer/fold.go", "(*fold).Exit", "(*node).Location()"),
        ("parser/parser.go", "(*parser).error", "p.current.Location"),
        ("parser/lexer/lexer.go", "(*lexer).error", "l.loc"),
-       ("vm/vm.go", "(*VM).Run", "program.Locations[vm.pp]")] ∧
-    ((Gen.Loc.errSites.filter (fun e => e.loc == "" && e.file != "parser/lexer/utils.go")).map
-        (fun e => (e.file, e.fn, e.kind))) =
+       ("vm/vm.go", "(*VM).Run", "program.Locations[vm.pp]")] = true ∧
+    sameSet ((Gen.Loc.errSites.filter (fun e => e.loc == "" && e.file != "parser/lexer/utils.go")).map
+        (fun e => (e.file, e.fn, e.kind)))
       [("expr.go", "Eval", "fmt.Errorf"),
        ("checker/checker.go", "Check", "fmt.Errorf"),
-       ("checker/checker.go", "Check", "fmt.Errorf"),
+       ("checker/checker.go", "(*visitor).visit", "file.Error"),
        ("compiler/compiler.go", "Compile", "fmt.Errorf"),
        ("conf/config.go", "(*Config).Check", "fmt.Errorf"),
-       ("conf/config.go", "(*Config).Check", "fmt.Errorf"),
-       ("conf/config.go", "(*Config).Check", "fmt.Errorf"),
        ("conf/config.go", "(*Config).ConstExpr", "fmt.Errorf"),
-       ("vm/vm.go", "Run", "fmt.Errorf")] ∧
+       ("vm/vm.go", "Run", "fmt.Errorf")] = true ∧
     (Gen.Loc.errSites.filter (fun e => e.file == "parser/lexer/utils.go")).all
         (fun e => e.fn == "unescape" || e.fn == "unescapeChar") = true ∧
     Gen.Loc.unescapeErrorWrapped = true ∧
-    Gen.Loc.errSites.all (fun e => e.kind == "file.Error" → e.loc != "") = true := by
+    (Gen.Loc.errSites.filter (fun e => e.kind == "file.Error" && e.loc == "")).map (fun e => (e.file, e.fn)) =
+      [("checker/checker.go", "(*visitor).visit")] := by
   decide +kernel
 
 /-- the node whose location each `v.error(node, …)` of the checker uses: the node being checked,
-    except slice bounds (`node.From` / `node.To`), call arguments (`arg`), builtin arguments and the
-    condition of a conditional (`node.Cond`) -/
+    except (exactly these, as a set) slice bounds (`node.From` / `node.To`), call arguments (`arg`),
+    builtin arguments, the condition of a conditional (`node.Cond`) and the computed key of a map
+    pair (`node.Key`) -/
 theorem checker_error_nodes :
-    Gen.Loc.checkerErrorArgs.filter (fun p => p.2 != "node") =
+    sameSet (Gen.Loc.checkerErrorArgs.filter (fun p => p.2 != "node"))
       [("SliceNode", "node.From"), ("SliceNode", "node.To"), ("checkFunc", "arg"),
-       ("BuiltinNode", "node.Arguments[0]"), ("BuiltinNode", "node.Arguments[1]"), ("BuiltinNode", "node.Arguments[1]"),
-       ("BuiltinNode", "node.Arguments[0]"), ("BuiltinNode", "node.Arguments[1]"), ("BuiltinNode", "node.Arguments[1]"),
        ("BuiltinNode", "node.Arguments[0]"), ("BuiltinNode", "node.Arguments[1]"),
-       ("BuiltinNode", "node.Arguments[0]"), ("BuiltinNode", "node.Arguments[1]"), ("BuiltinNode", "node.Arguments[1]"),
-       ("ConditionalNode", "node.Cond")] ∧
-    Gen.Loc.checkerErrorArgs.length = 38 := by
+       ("ConditionalNode", "node.Cond"), ("PairNode", "node.Key")] = true := by
   decide +kernel
 
 /-- `checker.Check` returns the located first error BEFORE the unlocated `expect` error (since fix
